@@ -14,7 +14,9 @@ import (
 )
 
 var seedStrings = []string{"", "NaN", "nan", "Inf", "-Inf", "-1", "0", "1", "0.5", "1.5", "7", "8", "15", "16", "100", "101", "-5", "1e400",
-	"0x10", " 1", "1 ", "+1", "1_0", "true", "TRUE", "t", "maybe", "abc", "ABC", "none", "NONE", "red", "#fff", "Ⱥ", "ⱥ*", "a\x00b"}
+	"1.00000001", "-1e-46", "0.99999999", "15.0", "8.5",
+	"0x10", " 1", "1 ", "+1", "1_0", "true", "TRUE", "t", "maybe", "abc", "ABC", "none", "NONE", "red", "#fff", "Ⱥ", "ⱥ*", "a\x00b",
+	"ȺȺȺȺx", "Ⱥx", "x", "İstanbul", "ſ"}
 
 var seedInts = []string{"0", "1", "-1", "2", "7", "100", "101"}
 var seedFloats = []string{"0", "1", "-1", "0.5", "7", "21", "1e9"}
@@ -67,17 +69,20 @@ func (e *Engine) zeroBuild(t types.Type, pkg *types.Package, depth int, imports 
 // planSearchReplay builds a test that searches the seed inputs for a violation of the failed ensures clause.
 func (e *Engine) planSearchReplay(fr *funcResult, ob *Obligation) (*replayPlan, string) {
 	fn := fr.fn
-	if fn == nil || fn.Parent() != nil || ob.Kind != "ensures" {
-		return nil, "search replay only for ensures of top-level functions"
+	safety := map[string]bool{"index": true, "slice": true, "nil-deref": true, "panic": true, "div-zero": true, "type-assert": true, "nil-map": true, "makeslice-len": true}
+	if fn == nil || fn.Parent() != nil || !(ob.Kind == "ensures" || safety[ob.Kind]) {
+		return nil, "search replay only for ensures and safety obligations of top-level functions"
 	}
 	var cl *Clause
-	for _, c := range fr.fs.Ensures {
-		if strings.HasSuffix(ob.Name, "/ensures:"+c.Label) {
-			cl = c
+	if ob.Kind == "ensures" {
+		for _, c := range fr.fs.Ensures {
+			if strings.HasSuffix(ob.Name, "/ensures:"+c.Label) {
+				cl = c
+			}
 		}
-	}
-	if cl == nil {
-		return nil, "ensures clause not found"
+		if cl == nil {
+			return nil, "ensures clause not found"
+		}
 	}
 	pkg := fn.Pkg.Pkg
 	imports := map[string]bool{"testing": true, "fmt": true}
@@ -110,6 +115,7 @@ func (e *Engine) planSearchReplay(fr *funcResult, ob *Obligation) (*replayPlan, 
 	type param struct {
 		name  string
 		cands []string
+		ctype string // element type of the candidate list when not derivable from the literal
 		build string // rebuilt each iteration (pointers)
 	}
 	var ps []param
@@ -151,6 +157,21 @@ func (e *Engine) planSearchReplay(fr *funcResult, ob *Obligation) (*replayPlan, 
 			default:
 				return nil, "parameter type " + p.Type().String()
 			}
+		case *types.Slice:
+			if b, ok := u.Elem().Underlying().(*types.Basic); ok && b.Info()&types.IsString != 0 {
+				// small lists over a few seed strings, with and without the glob star
+				hasString = true
+				base := []string{"x", "ab", "Ⱥ", "ⱥ", "a*", ""}
+				var cs []string
+				q := strconv.Quote
+				cs = append(cs, "{}")
+				for _, s := range base {
+					cs = append(cs, "{"+q(s)+"}", "{\"*\", "+q(s)+"}", "{"+q(s)+", \"*\"}", "{\"*\", "+q(s)+", \"*\"}")
+				}
+				ps = append(ps, param{name: name, cands: cs, ctype: "[]string"})
+				break
+			}
+			ps = append(ps, param{name: name, build: e.zeroBuild(p.Type(), pkg, 2, imports)})
 		case *types.Pointer:
 			ps = append(ps, param{name: name, build: e.zeroBuild(p.Type(), pkg, 3, imports)})
 		default:
@@ -184,9 +205,14 @@ func (e *Engine) planSearchReplay(fr *funcResult, ob *Obligation) (*replayPlan, 
 			tr.params[n] = lhs[i]
 		}
 	}
-	g, ok := tr.expr(cl.E)
-	if !ok {
-		return nil, "clause not translatable to Go: " + tr.why
+	g, what := "true", "run-time panic ("+ob.Kind+")"
+	if cl != nil {
+		var ok bool
+		g, ok = tr.expr(cl.E)
+		if !ok {
+			return nil, "clause not translatable to Go: " + tr.why
+		}
+		what = cl.Text
 	}
 	for im := range tr.imports {
 		imports[im] = true
@@ -196,14 +222,29 @@ func (e *Engine) planSearchReplay(fr *funcResult, ob *Obligation) (*replayPlan, 
 	depth := 0
 	for _, p := range ps {
 		if len(p.cands) > 0 {
-			fmt.Fprintf(&body, "%sfor _, %s := range []%s{%s} {\n", indent, p.name, candType(p.cands[0]), strings.Join(p.cands, ", "))
+			ct := p.ctype
+			if ct == "" {
+				ct = candType(p.cands[0])
+			}
+			fmt.Fprintf(&body, "%sfor _, %s := range []%s{%s} {\n", indent, p.name, ct, strings.Join(p.cands, ", "))
 			indent += "\t"
 			depth++
 		}
 	}
 	fmt.Fprintf(&body, "%sfunc() {\n", indent)
 	in2 := indent + "\t"
-	fmt.Fprintf(&body, "%sdefer func() { recover() }()\n", in2)
+	if cl == nil {
+		// safety obligation: the violation is the panic itself
+		var shown0 []string
+		for _, p := range ps {
+			if len(p.cands) > 0 {
+				shown0 = append(shown0, p.name)
+			}
+		}
+		fmt.Fprintf(&body, "%sdefer func() { if r := recover(); r != nil && !found { found = true; fmt.Printf(\"VERIF-REPLAY: VIOLATED panic: %%v inputs: %%q\\n\", r, []any{%s}) } }()\n", in2, strings.Join(shown0, ", "))
+	} else {
+		fmt.Fprintf(&body, "%sdefer func() { recover() }()\n", in2)
+	}
 	for _, p := range ps {
 		if p.build != "" {
 			fmt.Fprintf(&body, "%s%s := %s\n%s_ = %s\n", in2, p.name, p.build, in2, p.name)
@@ -241,7 +282,7 @@ func (e *Engine) planSearchReplay(fr *funcResult, ob *Obligation) (*replayPlan, 
 		}
 	}
 	fmt.Fprintf(&body, "%stried++\n", in2)
-	fmt.Fprintf(&body, "%sif !(%s) && !found { found = true; fmt.Printf(\"VERIF-REPLAY: VIOLATED %%s inputs: %%q\\n\", %q, []any{%s}) }\n", in2, g, cl.Text, strings.Join(shown, ", "))
+	fmt.Fprintf(&body, "%sif !(%s) && !found { found = true; fmt.Printf(\"VERIF-REPLAY: VIOLATED %%s inputs: %%q\\n\", %q, []any{%s}) }\n", in2, g, what, strings.Join(shown, ", "))
 	fmt.Fprintf(&body, "%s}()\n", indent)
 	for i := 0; i < depth; i++ {
 		indent = indent[:len(indent)-1]
